@@ -112,6 +112,7 @@ func genH(r *Rng, mixNS bool) []Op {
 		haveDir = true
 	}
 	var hs []hShadow
+	createdC := false
 	size := 8 // rough size used only to aim offsets
 	open := func() {
 		p := files[r.Intn(len(files))]
@@ -130,6 +131,19 @@ func genH(r *Rng, mixNS bool) []Op {
 		}
 		if r.Intn(6) == 0 {
 			flag |= fCREATE
+		}
+		if !createdC && r.Intn(5) == 0 {
+			// a handle that CREATES its file (the name does not exist yet), half of the time in append mode
+			p, createdC = "c", true
+			flag |= fCREATE
+			if flag&(fWRONLY|fRDWR) == 0 {
+				flag |= fRDWR
+			}
+			if r.Intn(2) == 0 {
+				flag |= fAPPEND
+			}
+			flag &^= fTRUNC
+			files = append(files, "c")
 		}
 		isDir := false
 		if r.Intn(10) == 0 {
@@ -388,6 +402,61 @@ func runH(r *Rng, n int, mixNS bool) {
 		}
 		c.Coq = cPair(cList(opsC), cList(items))
 		emit(c)
+	}
+	if mixNS {
+		runClosedSweep(n)
+	}
+}
+
+// runClosedSweep (C17): after Close every method of a handle fails and does not panic, on EVERY file system and
+// composition, for file handles of each access mode and for directory handles; and it matches ErrClosed wherever the
+// same call on a closed os.File does.
+func runClosedSweep(firstID int) {
+	methods := []Op{{Kind: "h:read", N: 4}, {Kind: "h:read", N: 0}, {Kind: "h:readat", N: 4, Off: 1}, {Kind: "h:write", Data: []byte{1, 2}}, {Kind: "h:writeat", Data: []byte{3}, Off: 1},
+		{Kind: "h:seek", Off: 0, Wh: 1}, {Kind: "h:seek", Off: 1, Wh: 0}, {Kind: "h:stat"}, {Kind: "h:readdir", N: -1}, {Kind: "h:readdir", N: 1},
+		{Kind: "h:trunc", Off: 1}, {Kind: "h:trunc", Off: -1}, {Kind: "h:chmod", Perm: 0o600}, {Kind: "h:sync"}, {Kind: "h:close"}}
+	opens := []Op{{Kind: "open", P: "f", Flag: 0}, {Kind: "open", P: "f", Flag: fRDWR}, {Kind: "open", P: "f", Flag: fWRONLY | fAPPEND}, {Kind: "open", P: "d", Flag: 0}, {Kind: "open", P: ".", Flag: 0}, {Kind: "open", P: "d/f", Flag: 0}}
+	id := firstID
+	for _, l := range c04Layers() {
+		for _, op := range opens {
+			for _, m := range methods {
+				fs, _, done := l.build()
+				refFS, refDone := newOSWorld()
+				prepTree(refFS)
+				impl, ref := &World{FS: fs}, &World{FS: refFS}
+				a0, b0 := impl.Apply(op), ref.Apply(op)
+				c := &Case{ID: id, Kind: "closed/" + l.name, Trivial: true}
+				id++
+				c.Cells = []string{"closed/" + l.name + "/" + m.Kind}
+				if a0.Kind != "handle" || b0.Kind != "handle" {
+					// a read-only layer refuses the writable open: nothing to close
+					impl.CloseAll()
+					ref.CloseAll()
+					done()
+					refDone()
+					continue
+				}
+				impl.Apply(Op{Kind: "h:close", H: 0})
+				ref.Apply(Op{Kind: "h:close", H: 0})
+				mm := m
+				mm.H = 0
+				a, b := impl.Apply(mm), ref.Apply(mm)
+				c.Text = []string{fmt.Sprintf("[%s] %s; close; %s -> %s   | os.File: %s", l.name, op, mm, a, b)}
+				switch {
+				case a.Kind == "panic":
+					c.fail(c.Text[0]+": panicked", "closed:"+l.name+":"+m.Kind+":panic")
+				case !a.failed():
+					c.fail(c.Text[0]+": a call on a closed handle succeeded", "closed:"+l.name+":"+m.Kind+":ok")
+				case b.Err != nil && b.Err.Cls == "ECLOSED" && a.Err != nil && a.Err.Cls != "ECLOSED":
+					c.fail(c.Text[0]+": os.File reports ErrClosed, this handle does not", "closed:"+l.name+":"+m.Kind+":class")
+				}
+				impl.CloseAll()
+				ref.CloseAll()
+				done()
+				refDone()
+				emit(c)
+			}
+		}
 	}
 }
 
